@@ -61,6 +61,21 @@ def log_registration(ctx):
         vals += [e for e in apps if e.call[2][0][0] == "i" and e.call[2][0][2] == ("c", 0)]
         specs += [e for e in apps if is_call_n(e.call[2][0], "LogChunkInfo")]
     ok = bool(vals) and len({e.site for e in specs}) >= 2 and all(len(loops(e)) == 1 for e in vals + specs)
+    # a text chunk is recorded as text, a field chunk as (format spec of that field), and its value is collected
+    for ex in tl.exs:
+        dstr = next(((t, v) for t, v in ex.config if pmatch("isinstance(Q_c, str)", t) is not None), None)
+        if dstr is None:
+            continue
+        ch = pmatch("isinstance(Q_c, str)", dstr[0])["c"]
+        sp = [e for e in ex.of(Effect) if pmatch("Q_l.append(Q_x)", e.call) and is_call_n(e.call[2][0], "LogChunkInfo")]
+        vs = [e for e in ex.of(Effect) if pmatch("Q_l.append(Q_x)", e.call) and not is_call_n(e.call[2][0], "LogChunkInfo") and loops(e)]
+        if dstr[1]:
+            okc = len(sp) == 1 and sp[0].call[2][0][2] == (("c", False), ch) and not vs
+        else:
+            okc = len(sp) == 1 and sp[0].call[2][0][2] == (("c", True), ("i", ch, ("c", 1))) and len(vs) == 1 and vs[0].call[2][0] == ("i", ch, ("c", 0))
+        ok = ok and okc
+        ctx.check(okc, "C34.format-chunks.kind", sp[0].site if sp else tl.site, f"HardwareLogger.top_log.chunk[str={dstr[1]}]", found="; ".join(tstr(e.call)[:100] for e in sp + vs) or "nothing recorded",
+                  required="text chunk -> LogChunkInfo(False, text); field chunk (value, spec) -> LogChunkInfo(True, spec) and the value appended to the fields")
     ctx.check(ok, "C34.format-chunks", tl.site, "HardwareLogger.top_log.chunks", found="value / chunk appends in one loop over the format chunks" if ok else "not found", required="field values are collected in the order of the format chunks that consume them")
     for q, target, neg_arg in (("HardwareLogger.assertion", "error", 2), ("HardwareLogger.top_assertion", "top_error", 1)):
         fa = Fn(ctx.repo, HW, q, "C34")
@@ -167,6 +182,27 @@ def sim_process(ctx):
                             r = g[3][0][0]
                             ok = g[2] == ("op", "+", ("tuple", ("a", r, "trigger")), ("a", r, "fields")) and g[3][0][1][0] == "v" and pmatch("tlog.get_log_records(Q_l, Q_n)", ex.vardefs.get(g[3][0][1][2], ("c", None))) is not None
     ctx.check(ok, "C34.sim-sample-order", fp.site, "log_process.sampled", found="(record.trigger,) + record.fields per record" if ok else "different order", required="sampled per record, in record order: trigger, then the fields (the order handle_logs consumes)")
+    # exactly the triggered cycles: the report is reached iff the combined trigger and the record's own trigger sampled true
+    r_all = fp.reach(Effect, lambda e: is_call_a(e.call, "log") and len(loops(e)) == 2)
+    okx = False
+    detail = fstr(r_all)[:200]
+    for ex in fp.exs:
+        for e in ex.of(Effect):
+            if not (is_call_a(e.call, "log") and len(loops(e)) == 2):
+                continue
+            (tup,), it = loops(e)[0]
+            ms = pmatch("Q_s.tick().sample(Q_a, Q_b).sample(*Q_rest)", it)
+            if ms is None:
+                continue
+            comb = ms["b"]
+            cd = ex.vardef(comb) or comb
+            own = [a for a in atoms_of(r_all) if a[0] == "v" and ex.vardefs.get(a[2], ("x",))[0] == "call" and ex.vardefs[a[2]][1] == ("n", "next")]
+            its = [d for d in ex.vardefs.values() if pmatch("iter(Q_x)", d) is not None and pmatch("iter(Q_x)", d)["x"] == ("i", tup, ("slice", ("c", 4), ("c", None), ("c", None)))]
+            okx = (pmatch("tlog.get_trigger_bit(Q_l, Q_n)", cd) == {"l": level, "n": ns} and len(own) == 1 and bool(its)
+                   and equivalent(r_all, f_and(A(("i", tup, ("c", 3))), A(own[0]))) is None)
+            detail = f"reported iff {fstr(r_all)[:160]}; second sample = {tstr(cd)[:80]}; record values from {tstr(its[0]) if its else '?'}"
+    ctx.check(okx, "C34.sim-exactly-triggered", fp.site, "log_process.report", found=detail,
+              required="a record is reported iff the combined trigger (2nd sample, element 3 of the tick tuple) and the record's own trigger sampled true; the per-record values start at element 4")
     calls = [e for ex in fp.exs for e in ex.of(Effect) if is_call_a(e.call, "log") and len(loops(e)) == 2]
     ctx.check(bool(calls), "C34.sim-handle-called", fp.site, "log_process.handle_logs", found=f"{len(calls)} report site(s) reached from the sampling loop", required="sampled values are handed to handle_logs every triggered cycle", nontrivial=False)
 
@@ -176,6 +212,48 @@ def format_rule(ctx):
     apps = fn.facts(Effect, lambda e: pmatch("Q_l.append(Q_x)", e.call) is not None and is_call_n(pmatch("Q_l.append(Q_x)", e.call)["x"], "format"))
     ok = len(apps) >= 1 and all(len(loops(e)) == 1 and loops(e)[0][1] == pat("self.format_spec") for _, e in apps)
     ctx.check(ok, "C34.python-format", fn.site, "LogRecordInfo.format", found="; ".join(tstr(e.call)[:100] for _, e in apps) or "no format() call", required="every formatted chunk goes through Python's format(value, spec), chunks in specification order")
+    # every chunk of the specification contributes exactly one piece, of the right kind
+    for ex in fn.exs:
+        dec = {tstr(t): v for t, v in ex.config}
+        is_fmt = next((v for t, v in ex.config if t[0] == "a" and t[2] == "is_fmt"), None)
+        if is_fmt is None:
+            continue
+        chunk = next(t[1] for t, v in ex.config if t[0] == "a" and t[2] == "is_fmt")
+        rets_ = [r for r in ex.of(Return) if r.callid is None]
+        lst = pmatch("''.join(Q_c)", rets_[0].value)["c"] if rets_ and pmatch("''.join(Q_c)", rets_[0].value) else None
+        apps_ = [e for e in ex.of(Effect) if pmatch("Q_l.append(Q_x)", e.call) is not None and pmatch("Q_l.append(Q_x)", e.call)["l"] == lst]
+        spec = ("a", chunk, "fmt_or_str")
+        as_str = next((v for t, v in ex.config if pmatch("Q_s.endswith('s')", t) == {"s": spec}), None)
+        ok = len(apps_) == 1
+        if ok:
+            x = pmatch("Q_l.append(Q_x)", apps_[0].call)["x"]
+            if not is_fmt:
+                ok = x == spec
+            else:
+                mf = pmatch("format(Q_v, Q_f)", x)
+                ok = mf is not None
+                if ok:
+                    v = ex.vardef(mf["v"]) or mf["v"]
+                    nxt = pmatch("next(Q_it)", v)
+                    if as_str:
+                        ok = mf["f"] == ("i", spec, ("slice", ("c", None), ("c", -1), ("c", None))) and pmatch("Q_m.decode()", v) is not None
+                    else:
+                        ok = mf["f"] == spec and nxt is not None and pmatch("iter(Q_a)", ex.vardef(nxt["it"]) or nxt["it"]) is not None
+        ctx.check(ok, "C34.python-format.pieces", apps_[0].site if apps_ else fn.site, f"LogRecordInfo.format[is_fmt={is_fmt},str={as_str}]", found="; ".join(tstr(e.call)[:120] for e in apps_) or "nothing appended",
+                  required="a text chunk is copied; a field chunk is format(next argument, its spec); an `s` field is the decoded bytes formatted with the spec without the `s`")
+        if is_fmt and as_str:
+            # little-endian bytes of the value, zero bytes skipped
+            bytes_ = [e for e in ex.of(Effect) if pmatch("Q_m.append(Q_b)", e.call) is not None and e not in apps_]
+            steps = [v for k, v in ex.loopdefs.items() if k[0] != "while"]
+            tests = [v for k, v in ex.loopdefs.items() if k[0] == "while"]
+            okb = len(steps) == 1 and len(tests) == 1 and steps[0][1] is not None and pmatch("Q_v >> 8", steps[0][1]) is not None and pmatch("Q_v >> 8", steps[0][1])["v"] == tests[0][0]
+            if bytes_:
+                b = pmatch("Q_m.append(Q_b)", bytes_[0].call)["b"]
+                okb = okb and b in (("op", "&", ("c", 255), tests[0][0]), ("op", "&", tests[0][0], ("c", 255))) if tests else False
+            if dec.get(tstr(("op", "&", ("c", 255), tests[0][0])) if tests else "") is True:
+                okb = okb and len(bytes_) == 1
+            ctx.check(okb, "C34.python-format.string-bytes", bytes_[0].site if bytes_ else fn.site, f"LogRecordInfo.format.bytes[{dec}]"[:120], found="; ".join(tstr(e.call) for e in bytes_) + " ; step " + "; ".join(tstr(s[1]) for s in steps if s[1]),
+                      required="an `s` field is unpacked byte by byte: (value & 0xFF) appended when non-zero, value >>= 8 until the value is 0")
     rets = fn.facts(Return, lambda r: r.callid is None)
     ctx.check(any(pmatch("''.join(Q_c)", r.value) is not None for _, r in rets), "C34.python-format", fn.site, "LogRecordInfo.format.join", found="; ".join(tstr(r.value) for _, r in rets), required="the message is the concatenation of the chunks", nontrivial=False)
 
